@@ -35,6 +35,10 @@ def apply_body_rules(body, unit, c, f):
         body = rx.sub(repl, body)
     if 'panic' in body and 'vpanic' not in body.replace('vpanic', ''):
         pass
+    # R5 named constants
+    body = re.sub(r'cast\(\s*180\.0\s*/\s*f64::consts::PI\s*\)\s*\.unwrap\(\)', 'Sc::const_180_over_pi()', body)
+    body = re.sub(r'cast\(\s*f64::consts::PI\s*/\s*180\.0\s*\)\s*\.unwrap\(\)', 'Sc::const_pi_over_180()', body)
+    body = re.sub(r'cast\(\s*f64::consts::PI\s*\*\s*2\.0\s*\)\s*\.unwrap\(\)', 'Sc::const_two_pi()', body)
     # R5 literal casts
     body = CAST_RE.sub(lit_const, body)
     # R6 get_unchecked
